@@ -338,6 +338,12 @@ fn proc_rchar() -> u64 {
         .unwrap_or(0)
 }
 
+/// File names are bytes (they need not be UTF-8).
+fn osname(b: &[u8]) -> std::ffi::OsString {
+    use std::os::unix::ffi::OsStringExt;
+    std::ffi::OsString::from_vec(b.to_vec())
+}
+
 fn run_case(case: &Case) -> Obs {
     let mut lines = Vec::new();
     // scratch files
@@ -349,7 +355,7 @@ fn run_case(case: &Case) -> Obs {
     if let Some(dir) = &dir {
         let _ = std::fs::create_dir_all(dir);
         for (name, content) in &case.files {
-            let p = dir.join(String::from_utf8_lossy(name).to_string());
+            let p = dir.join(osname(name));
             if let Some(parent) = p.parent() {
                 let _ = std::fs::create_dir_all(parent);
             }
@@ -361,16 +367,16 @@ fn run_case(case: &Case) -> Obs {
             created.push(p);
         }
         for (name, target) in &case.links {
-            let p = dir.join(String::from_utf8_lossy(name).to_string());
+            let p = dir.join(osname(name));
             if let Some(parent) = p.parent() {
                 let _ = std::fs::create_dir_all(parent);
             }
             let _ = std::fs::remove_file(&p);
-            std::os::unix::fs::symlink(String::from_utf8_lossy(target).to_string(), &p).expect("symlink");
+            std::os::unix::fs::symlink(osname(target), &p).expect("symlink");
             created.push(p);
         }
         for name in &case.fifos {
-            let p = dir.join(String::from_utf8_lossy(name).to_string());
+            let p = dir.join(osname(name));
             let _ = std::fs::remove_file(&p);
             let st = std::process::Command::new("mkfifo").arg(&p).status().expect("mkfifo");
             assert!(st.success());
@@ -394,7 +400,7 @@ fn run_case(case: &Case) -> Obs {
             created.push(p);
         }
         for (name, e) in &case.efifos {
-            let p = dir.join(String::from_utf8_lossy(name).to_string());
+            let p = dir.join(osname(name));
             let _ = std::fs::remove_file(&p);
             let st = std::process::Command::new("mkfifo").arg(&p).status().expect("mkfifo");
             assert!(st.success());
@@ -416,7 +422,7 @@ fn run_case(case: &Case) -> Obs {
     let mut held_locks = Vec::new();
     if let Some(dir) = &dir {
         for name in &case.lockfiles {
-            if let Ok(f) = std::fs::OpenOptions::new().read(true).write(true).open(dir.join(String::from_utf8_lossy(name).to_string())) {
+            if let Ok(f) = std::fs::OpenOptions::new().read(true).write(true).open(dir.join(osname(name))) {
                 let _ = f.lock();
                 held_locks.push(f);
             }
@@ -586,7 +592,7 @@ fn run_case(case: &Case) -> Obs {
                     let rd = std::fs::OpenOptions::new()
                         .read(true)
                         .custom_flags(0o4000)
-                        .open(dir.join(String::from_utf8_lossy(p).to_string()));
+                        .open(dir.join(osname(p)));
                     let t0 = Instant::now();
                     while !efifo_stats[i].1.load(Ordering::SeqCst) && t0.elapsed() < Duration::from_secs(5) {
                         std::thread::sleep(Duration::from_millis(1));
